@@ -235,6 +235,12 @@ func c13Run(f []string) string {
 	if op == "topn" {
 		return c13RunTopN(f)
 	}
+	if op == "sbv" {
+		if helpers.SortsByValue(string(UnHex(f[1]))) {
+			return "ok 1"
+		}
+		return "ok 0"
+	}
 	if op == "tparse" {
 		return c13TParse(string(UnHex(f[1])), UnHexListS(f[2]))
 	}
@@ -976,6 +982,15 @@ func c13Gen(r *Rand, tier string) []string {
 	}
 	for _, nm := range c13BadNames {
 		out = append(out, probe.line("sort", nm, "7,6,5,4,3,2,1,0"))
+		out = append(out, "sbv "+HexS(nm))
+	}
+	for _, nm := range append(append([]string{}, c13Names0...), "bla", "VALUE", "Value", "valu\xc4\x97", "VAL\xe2\x84\xaaE", "value ", " value", "values") {
+		for _, md := range []string{"", ":asc", ":desc", ":rev", ":reverse", ":bla", ":", ":ASC", ":asc:x", "::", ":value"} {
+			out = append(out, "sbv "+HexS(nm+md))
+		}
+	}
+	for i := 0; i < 60; i++ {
+		out = append(out, "sbv "+HexS(c13SortName(r)), "sbv "+HexS(c13LowerKey(r)+Pick(r, c13Mods)))
 	}
 	if tier == "thorough" {
 		// exhaustive small enumerations: every 3-subset of a mixed pool x every permutation x every mode
@@ -1062,6 +1077,13 @@ func c13Stats(cases []string) map[string]int {
 			}
 			if f[1] == "1" {
 				st["groups.reversed"]++
+			}
+			continue
+		case "sbv":
+			if helpers.SortsByValue(string(UnHex(f[1]))) {
+				st["sbv.true"]++
+			} else {
+				st["sbv.false"]++
 			}
 			continue
 		case "topn":
